@@ -20,10 +20,15 @@ Cases (independent sender gen_quic, REAL cryptography first, then the toy world 
      FIRST of them (before the ClientHello is complete)                                                    -> ?
   E  as B, followed by five more 1-RTT requests of the client                                              -> ?
 
-OBSERVED (real cryptography, tool unmodified; `main()` asserts it):
+OBSERVED (real cryptography, tool unmodified; `main()` asserts it, choosing the expectation by whether the tree under test
+has `QuicSession.set_largest_packet_number`, i.e. the repair "only an authenticated QUIC packet moves the largest packet
+number of its space"):
   A  everything exported.
   D  the 0-RTT data is lost (KeyError on decryptors["Early"]: the packet is dropped, nothing else happens).
-  B, C, E  the 0-RTT data is lost AND EVERY LATER 1-RTT PACKET OF THE CLIENT IS LOST TOO (also the 0-RTT packet after the
+  B, C, E on the REPAIRED tree: only EARLY-1 is lost (Early keys of the first offered suite: AEAD failure, the session is
+     left as it was — Props.C02Capstone3.zero_rtt_rejected_leaves_session, ExZr.late_survives); EARLY-2 of C, captured
+     after the ServerHello, is decrypted with the re-derived keys; LATE and the five requests of E are exported.
+  B, C, E BEFORE the repair: the 0-RTT data is lost AND EVERY LATER 1-RTT PACKET OF THE CLIENT IS LOST TOO (also the 0-RTT packet after the
      ServerHello in C): the "Early" decryptor and the early header-protection key exist — derived with the first offered
      suite — so the dissector removes header protection with the wrong key/primitive, reads a garbage packet number (up to
      four bytes), and `get_full_packet_number` stores it as the largest packet number of the client's application space
@@ -103,12 +108,27 @@ def run_case(case, ctx=None):
     return want, got, same_model
 
 
-EXPECT_REAL = {"A": [b"EARLY-1", b"LATE", b"REPLY"], "B": [b"REPLY"], "C": [b"REPLY"], "D": [b"LATE", b"REPLY"],
-               "E": [b"REPLY"]}
+# the tree BEFORE the repair "only an authenticated QUIC packet moves the largest packet number of its space"
+EXPECT_REAL_OLD = {"A": [b"EARLY-1", b"LATE", b"REPLY"], "B": [b"REPLY"], "C": [b"REPLY"], "D": [b"LATE", b"REPLY"],
+                   "E": [b"REPLY"]}
+# the repaired tree (QuicSession.set_largest_packet_number exists): only the 0-RTT packet met before fitting Early keys
+# exist is lost; the 0-RTT packet after the ServerHello (C) is decrypted with the re-derived keys
+EXPECT_REAL_FIXED = {"A": [b"EARLY-1", b"LATE", b"REPLY"], "B": [b"LATE", b"REPLY"], "C": [b"EARLY-2", b"LATE", b"REPLY"],
+                     "D": [b"LATE", b"REPLY"], "E": [b"LATE", b"REPLY"] + [b"REQ%d" % i for i in range(5)]}
+
+
+def tree_is_fixed():
+    """does the tree under test store the largest packet number only after the AEAD check?"""
+    from tlexport.quic.quic_session import QuicSession
+    return hasattr(QuicSession, "set_largest_packet_number")
 
 
 def main():
     res = {}
+    fixed = tree_is_fixed()
+    EXPECT_REAL = EXPECT_REAL_FIXED if fixed else EXPECT_REAL_OLD
+    print("tree under test:", "repaired (largest packet number stored after the AEAD check)" if fixed
+          else "before the pn-store repair (largest packet number stored before the AEAD check)")
     for case in "ABCDE":                                        # REAL cryptography, tool unmodified
         want, got, _ = run_case(case)
         res[case] = (want, got)
